@@ -43,12 +43,15 @@ def h_container(cfg):
     ops, sorts = cfg['ops'], cfg['sorts']
     burst = cfg.get('burst') or [0] * len(ops)
     asort = cfg.get('asort', 'int')
-    C = sym_num('C', asort, 0, None, True)
     L = sym_num('L', asort, 0)
     from symx import assume
-    assume(le(L, C))
+    if cfg.get('default_capacity'):
+        C = INF
+    else:
+        C = sym_num('C', asort, 0, None, True)
+        assume(le(L, C))
     try:
-        c = Container(env, capacity=C, init=L)
+        c = Container(env, init=L) if cfg.get('default_capacity') else Container(env, capacity=C, init=L)
     except Exception as ex:  # noqa
         fail('no-raise', 'Container(): %s: %s' % (type(ex).__name__, ex))
         return
@@ -114,8 +117,13 @@ def h_store(cfg):
     env = Environment()
     ops, sorts, kind = cfg['ops'], cfg['sorts'], cfg['kind']
     burst = cfg.get('burst') or [0] * len(ops)
-    cap = sym_int('cap', 1) if cfg.get('symcap', True) else cfg['cap']
-    st = {'store': Store, 'prio': PriorityStore, 'filter': FilterStore}[kind](env, capacity=cap)
+    cls = {'store': Store, 'prio': PriorityStore, 'filter': FilterStore}[kind]
+    if cfg.get('default_capacity'):
+        cap = INF
+        st = cls(env)
+    else:
+        cap = sym_int('cap', 1) if cfg.get('symcap', True) else cfg['cap']
+        st = cls(env, capacity=cap)
     reqs = []
     held = []            # accepted, not yet delivered (insertion order)
     delivered = []
@@ -272,6 +280,11 @@ def jobs(tier, seed):
     js.append({'harness': 'store', 'weight': 500,
                'cfg': {'ops': ['put'] * 6 + ['get'] * 6, 'burst': [0] + [1] * 5 + [0] + [1] * 5, 'sorts': 'int',
                        'kind': 'prio', 'symcap': False, 'cap': 8}})
+    # default (unbounded) capacities
+    js.append({'harness': 'container', 'weight': 10, 'cfg': {'ops': ['get', 'put', 'get', 'put'], 'sorts': 'int', 'default_capacity': True}})
+    for kind in ('store', 'prio', 'filter'):
+        js.append({'harness': 'store', 'weight': 10,
+                   'cfg': {'ops': ['get', 'put', 'put', 'get'], 'sorts': 'int', 'kind': kind, 'default_capacity': True}})
     return js
 
 
